@@ -314,6 +314,11 @@ func BuildUnion(query *Query, expr *sqlparser.Union) error {
 	query.selectDefinition = sqlparser.SelectExprs{}
 	query.selectDefinition.Exprs = []sqlparser.SelectExpr{&sqlparser.StarExpr{}}
 	query.distinct = expr.Distinct
+	// ORDER BY and LIMIT of the union apply to the combined rows
+	err = BuildOrder(query, &expr.OrderBy)
+	if err != nil {
+		return err
+	}
 	err = BuildLimit(query, expr.Limit)
 	if err != nil {
 		return err
